@@ -16,6 +16,8 @@ use vharness::*;
 enum V {
     Null,
     Int(BigInt),
+    /// the same integer value, but held in the Big representation (produced by a source expression)
+    IntBig(BigInt),
     Float(f64),
     Str(String),
     Bytes(Vec<u8>),
@@ -28,6 +30,15 @@ impl V {
         match self {
             V::Null => Obj::Null,
             V::Int(i) => Obj::from(i.clone()),
+            V::IntBig(i) => {
+                let how = (i.magnitude() % 3u32).to_u64().unwrap_or(0);
+                let e = match how {
+                    0 => format!("({}^1)", lit(i)),
+                    1 => format!("(2^70+{}-2^70)", lit(i)),
+                    _ => format!("(({}*2^70)//2^70)", lit(i)),
+                };
+                it.eval_obj(&e).unwrap_or(Obj::Null)
+            }
             V::Float(f) => Obj::from(*f),
             V::Str(s) => Obj::from(s.clone()),
             V::Bytes(b) => Obj::Seq(Seq::Bytes(Rc::new(b.clone()))),
@@ -46,7 +57,7 @@ impl V {
     fn token(&self) -> String {
         match self {
             V::Null => "n".into(),
-            V::Int(i) => format!("i{};", i),
+            V::Int(i) | V::IntBig(i) => format!("i{};", i),
             V::Float(f) => format!("f{:016x};", f.to_bits()),
             V::Str(s) => format!("s{};", hex(s.as_bytes())),
             V::Bytes(b) => format!("y{};", hex(b)),
@@ -57,6 +68,19 @@ impl V {
                 kvs.iter().map(|(k, v)| format!("{};{}", hex(k.as_bytes()), v.token())).collect::<String>()
             ),
             V::Func => "x".into(),
+        }
+    }
+    /// like `token`, but keeps the representation of integers (`I` = held in Big); used in replay lines
+    fn token_bind(&self) -> String {
+        match self {
+            V::IntBig(i) => format!("I{};", i),
+            V::List(xs) => format!("l{};{}", xs.len(), xs.iter().map(|x| x.token_bind()).collect::<String>()),
+            V::Dict(kvs) => format!(
+                "d{};{}",
+                kvs.len(),
+                kvs.iter().map(|(k, v)| format!("{};{}", hex(k.as_bytes()), v.token_bind())).collect::<String>()
+            ),
+            v => v.token(),
         }
     }
     fn parse(t: &[u8], pos: &mut usize) -> Option<V> {
@@ -78,6 +102,7 @@ impl V {
             b'n' => V::Null,
             b'x' => V::Func,
             b'i' => V::Int(field(t, pos)?.parse().ok()?),
+            b'I' => V::IntBig(field(t, pos)?.parse().ok()?),
             b'f' => V::Float(f64::from_bits(u64::from_str_radix(&field(t, pos)?, 16).ok()?)),
             b's' => V::Str(String::from_utf8(unhex(&field(t, pos)?)).ok()?),
             b'y' => V::Bytes(unhex(&field(t, pos)?)),
@@ -105,7 +130,7 @@ impl V {
     fn literal(&self) -> String {
         match self {
             V::Null => "null".into(),
-            V::Int(i) => format!("{}", i),
+            V::Int(i) | V::IntBig(i) => format!("{}", i),
             V::Float(f) => format!("{:?}", f),
             V::Str(s) => format!("\"{}\"", s.replace('\\', "\\\\").replace('"', "\\\"")),
             V::List(xs) => format!("[{}]", xs.iter().map(|x| x.literal()).collect::<Vec<_>>().join(", ")),
@@ -210,7 +235,7 @@ impl Bind {
         match self {
             Bind::Str(s) => format!("str:{}", if s.is_empty() { "-".into() } else { hex(s.as_bytes()) }),
             Bind::Bytes(b) => format!("bytes:{}", if b.is_empty() { "-".into() } else { hex(b) }),
-            Bind::Val(v) => format!("val:{}", v.token()),
+            Bind::Val(v) => format!("val:{}", v.token_bind()),
         }
     }
     fn decode(t: &str) -> Option<Bind> {
@@ -605,10 +630,17 @@ fn random_val(rng: &mut Rng, depth: u32, json_shaped: bool, printable: bool) -> 
     match rng.below(top) {
         0 => V::Null,
         1 | 2 => {
+            let big = rng.chance(1, 2);
+            let wrap = |i: BigInt| if big && i.to_i64().is_some() { V::IntBig(i) } else { V::Int(i) };
             if json_shaped {
-                V::Int(match rng.below(4) {
-                    0 => BigInt::from(*rng.pick(&[0i64, 1, -1, i64::MAX, i64::MIN, i64::MAX - 1, i64::MIN + 1, 1 << 53, -(1 << 53) - 1])),
+                wrap(match rng.below(6) {
+                    0 => BigInt::from(*rng.pick(&[0i64, 1, -1, 1024, i64::MAX, i64::MIN, i64::MAX - 1, i64::MIN + 1, 1 << 53, (1 << 53) + 1, -(1 << 53) - 1, 4052555153018976267])),
                     1 => BigInt::from(rng.range(-100, 100)),
+                    2 | 3 => {
+                        // magnitudes between 2^53 and 2^63: not representable as f64
+                        let m = (1i64 << 53) + (rng.next() >> 11) as i64 * 1023 + rng.range(0, 1022);
+                        BigInt::from(if rng.chance(1, 2) { -m } else { m })
+                    }
                     _ => BigInt::from(rng.next() as i64),
                 })
             } else {
@@ -617,8 +649,8 @@ fn random_val(rng: &mut Rng, depth: u32, json_shaped: bool, printable: bool) -> 
                     1 => V::Bytes(random_bytes(rng, 6)),
                     2 => V::Func,
                     3 => V::Float(random_f64(rng, false)),
-                    4 => V::Int(BigInt::from(*rng.pick(&[i64::MAX, i64::MIN])) + rng.range(-2, 2)),
-                    _ => V::Int(BigInt::from(rng.next() as i64)),
+                    4 => wrap(BigInt::from(*rng.pick(&[i64::MAX, i64::MIN])) + rng.range(-2, 2)),
+                    _ => wrap(BigInt::from(rng.next() as i64)),
                 }
             }
         }
@@ -722,6 +754,53 @@ impl Gen {
         }
     }
 
+    /// a format string with 2-4 interpolations, each with its own (possibly absent) flags
+    fn gen_fmt_multi(&mut self) -> Case {
+        let n = 2 + self.rng.below(3);
+        let pre = *self.rng.pick(&["", "", ">", "a=", " ", "0x"]);
+        let mut src = format!("F\"{}", pre);
+        let mut slots = vec![];
+        let mut flagged = 0;
+        for i in 0..n {
+            let w = if self.rng.chance(2, 3) { self.small_int() } else { self.int() };
+            let (e, r) = self.int_expr(&w);
+            let mut flags = String::new();
+            let (mut base, mut alc, mut pad, mut len) = ("d", "r", 32, 0u64);
+            // the first slot is mostly flagged, later ones are often bare: that is where a leak shows
+            let with_flags = if i == 0 { self.rng.chance(4, 5) } else { self.rng.chance(1, 2) };
+            if with_flags {
+                flagged += 1;
+                if self.rng.chance(1, 3) {
+                    let (a, c) = *self.rng.pick(&[(">", "r"), ("<", "l"), ("^", "c")]);
+                    flags.push_str(a);
+                    alc = c;
+                }
+                if self.rng.chance(1, 2) {
+                    flags.push('0');
+                    pad = 48;
+                }
+                if self.rng.chance(1, 2) {
+                    len = 1 + self.rng.below(14);
+                    flags.push_str(&len.to_string());
+                }
+                if self.rng.chance(2, 3) || flags.is_empty() {
+                    base = *self.rng.pick(&["x", "X", "b", "o", "d", "x"]);
+                    flags.push_str(base);
+                }
+            }
+            let sep = if i + 1 == n { *self.rng.pick(&["", "", ".", " end"]) } else { *self.rng.pick(&[" ", ":", ", ", "|", "-", "", " = ", "ff", "0", " 1 "]) };
+            if flags.is_empty() {
+                src.push_str(&format!("{{{}}}{}", e, sep));
+            } else {
+                src.push_str(&format!("{{{} #{}}}{}", e, flags, sep));
+            }
+            slots.push(format!("{},{},{},{},{}:{},{}", base, alc, pad, len, r, w, hx(sep.as_bytes())));
+        }
+        src.push('"');
+        case(&format!("fmt(multi,{}of{})", flagged, n), src, vec![], Render::Canon,
+             format!("fmtmulti {} {}", hx(pre.as_bytes()), slots.join(";")), true)
+    }
+
     fn gen_show(&mut self) -> Case {
         let v = if self.rng.chance(1, 2) { self.small_int() } else { self.int() };
         let (e, rep) = self.int_expr(&v);
@@ -757,6 +836,22 @@ impl Gen {
                 _ => format!("F\"{{{}}}\"", l),
             };
             return case("show(list)", src, vec![], Render::Canon, format!("showlist {}", toks.join(",")), true);
+        }
+        if self.rng.chance(1, 14) {
+            // an integer inside a dict: `{"k": v}`, value in repr form
+            let w = if self.rng.chance(1, 2) { self.small_int() } else { self.int() };
+            let (e, r) = self.int_expr(&w);
+            let d = format!("{{\"k\": {}}}", e);
+            let src = match self.rng.below(4) {
+                0 => format!("str({})", d),
+                1 => format!("$({})", d),
+                2 => format!("repr({})", d),
+                _ => format!("F\"{{({{'k': {}}}) #x}}\"", e),
+            };
+            return case("show(dict)", src, vec![], Render::Canon, format!("showdict1 {}:{}", r, w), true);
+        }
+        if self.rng.chance(1, 5) {
+            return self.gen_fmt_multi();
         }
         let kinds = ["str", "$", "fd", "x", "X", "b", "o", "print", "repr", "fD", "x", "b", "o"];
         let k = *self.rng.pick(&kinds);
@@ -1311,6 +1406,19 @@ fn main() {
         pending.push(case("int_radix(str_radix(s))", format!("int_radix(str_radix(0, {}), {})", b, b), vec![], Render::Canon,
                           format!("radix_rt 0 {}", b), true));
     }
+    pending.push(case("fmt(multi,1of2)", "F\"{255 #x} {255}\"".into(), vec![], Render::Canon,
+                      "fmtmulti - x,r,32,0,s:255,20;d,r,32,0,s:255,-".into(), true));
+    pending.push(case("fmt(multi,1of2)", "F\"{7 #03}:{7}\"".into(), vec![], Render::Canon,
+                      "fmtmulti - d,r,48,3,s:7,3a;d,r,32,0,s:7,-".into(), true));
+    for v in [BigInt::from(1024), BigInt::from(4052555153018976267i64), BigInt::from(-9007199254740993i64)] {
+        let val = V::List(vec![V::IntBig(v.clone()), V::Dict(vec![("a".into(), V::IntBig(v.clone()))])]);
+        pending.push(case("json_encode(shaped)", "json_encode($1)".into(), vec![Bind::Val(val.clone())], Render::JsonText,
+                          format!("json_enc {}", val.token()), true));
+        pending.push(case("json_decode(json_encode(shaped))", "json_decode(json_encode($1))".into(), vec![Bind::Val(val.clone())],
+                          Render::Canon, format!("json_rt {}", val.token()), true));
+        pending.push(case("json_decode(json_encode(v))==v", "json_decode(json_encode($1)) == $1".into(), vec![Bind::Val(V::IntBig(v.clone()))],
+                          Render::Canon, "echo ok 1".into(), true));
+    }
     pending.push(case("decompress(garbage)", "decompress($1)".into(), vec![Bind::Bytes(vec![1, 2, 3])], Render::Canon, "echo throw".into(), true));
     pending.push(case("decompress(garbage)", "decompress($1)".into(), vec![Bind::Bytes(vec![])], Render::Canon, "echo throw".into(), true));
 
@@ -1319,15 +1427,15 @@ fn main() {
     loop {
         while pending.len() < batch && total < n_cases {
             let c = match g.rng.below(100) {
-                0..=17 => g.gen_show(),
-                18..=29 => g.gen_intparse(),
-                30..=47 => g.gen_rational(),
-                48..=59 => g.gen_radix(),
-                60..=67 => g.gen_hex(),
-                68..=76 => g.gen_b64(),
-                77..=85 => g.gen_utf8(),
-                86..=90 => g.gen_chr(),
-                91..=97 => g.gen_json(&mut rn),
+                0..=18 => g.gen_show(),
+                19..=29 => g.gen_intparse(),
+                30..=45 => g.gen_rational(),
+                46..=56 => g.gen_radix(),
+                57..=64 => g.gen_hex(),
+                65..=73 => g.gen_b64(),
+                74..=82 => g.gen_utf8(),
+                83..=87 => g.gen_chr(),
+                88..=97 => g.gen_json(&mut rn),
                 _ => g.gen_gzip(&mut rn),
             };
             pending.push(c);
